@@ -53,6 +53,9 @@ pub enum Case {
     Explicit { els: Vec<El>, via_bits: bool },
     /// one numeric opcode on numbers at the width boundaries of the number encoding: +/-(2^exp + delta)
     Boundary { op: u8, args: Vec<(u8, i8, bool)>, padded: bool },
+    /// an opcode that takes an index / position / size / count operand (PICK ROLL SPLIT NUM2BIN LSHIFT RSHIFT) on a stack
+    /// of alphabet items, the operand being `value` encoded with `extra` padding bytes (non-minimal, possibly > 4 bytes)
+    IndexOp { op: u8, stack: Vec<u8>, value: i128, extra: u8 },
     /// one opcode on items of the given lengths above `pad` one-byte items (OP_SIZE / OP_DEPTH results that need 2..4 bytes)
     Sized { op: u8, lens: Vec<u32>, pad: u16, seed: u8 },
 }
@@ -115,7 +118,14 @@ fn program_of(case: &Case) -> Vec<El> {
             let pass = vec![El::Op(0x52), El::Op(0x53)];
             let fail = vec![El::Op(0x54)];
             let nested = |c: u8| El::If { code: c, pass: vec![El::Op(0x55)], fail: Some(vec![El::Op(0x56)]) };
-            let (p, f) = match shape % 6 {
+            let second_else = vec![El::Op(0x54), El::Op(103), El::Op(0x55)];
+            let (p, f) = match shape % 11 {
+                // a second OP_ELSE in the else branch, at this level and inside a nested conditional of either branch
+                6 => (pass, Some(second_else)),
+                7 => (vec![El::Op(0x51), El::If { code: 99, pass: vec![El::Op(0x55)], fail: Some(second_else) }], Some(fail)),
+                8 => (pass, Some(vec![El::Op(0), El::If { code: 100, pass: vec![], fail: Some(second_else) }])),
+                // stray OP_ENDIF after, stray OP_ELSE before the conditional (added below)
+                9 | 10 => (pass, Some(fail)),
                 0 => (pass, None),
                 1 => (pass, Some(fail)),
                 2 => (vec![], Some(fail)),
@@ -123,8 +133,15 @@ fn program_of(case: &Case) -> Vec<El> {
                 4 => (vec![El::Op(0x51), nested(99), El::Op(0x57)], Some(vec![El::Op(0), nested(100)])),
                 _ => (pass, Some(vec![])),
             };
+            if shape % 11 == 10 {
+                let at = els.len() - 1;
+                els.insert(at, El::Op(103));
+            }
             els.push(El::If { code: *code, pass: p, fail: f });
             els.push(El::Op(0x58));
+            if shape % 11 == 9 {
+                els.push(El::Op(104));
+            }
             els.push(El::Op(108));
             els
         }
@@ -144,6 +161,25 @@ fn program_of(case: &Case) -> Vec<El> {
                 }
                 els.push(push_el(&v));
             }
+            els.push(El::Op(*op));
+            els
+        }
+        Case::IndexOp { op, stack, value, extra } => {
+            let mut els: Vec<El> = stack.iter().map(|a| push_el(&alpha(*a))).collect();
+            let mut v = im::enc(&BigInt::from(*value));
+            if *extra > 0 {
+                // the same number with `extra` more bytes: the sign bit moves to the last byte
+                let sign = v.last().map(|b| b & 0x80).unwrap_or(0);
+                if let Some(last) = v.last_mut() {
+                    *last &= 0x7f;
+                }
+                for _ in 0..*extra {
+                    v.push(0);
+                }
+                let n = v.len();
+                v[n - 1] |= sign;
+            }
+            els.push(push_el(&v));
             els.push(El::Op(*op));
             els
         }
@@ -264,18 +300,25 @@ pub fn build_program(genes: &[Gene]) -> Vec<El> {
                 let code = if g.a & 1 == 0 { 99 } else { 100 };
                 let pass = small_body(&g.v, 3);
                 let fail = match g.k >> 4 {
+                    // rarely: a second OP_ELSE in the else branch
+                    15 if g.a % 8 == 7 => Some(vec![El::Op(0x52), El::Op(103), El::Op(0x53)]),
                     0..=5 => Some(small_body(&g.v[g.v.len().min(2)..], 3)),
                     6..=8 => Some(vec![]),
                     _ => None,
                 };
                 add.push(El::If { code, pass, fail });
             }
-            _ => match g.a % 5 {
+            _ => match g.a % 40 {
+                // rarely: a stray OP_ELSE / OP_ENDIF (the script must fail there)
+                38 => add.push(El::Op(103)),
+                39 => add.push(El::Op(104)),
+                x => match x % 5 {
                 0 => add.push(El::Op(107)),
                 1 => add.push(El::Op(108)),
                 2 => add.push(El::Op(105)),
                 3 if g.v.len() > 4 => add.push(El::Op(106)),
                 _ => add.push(El::Op(116)),
+                },
             },
         }
         // advance the model through the new elements (including spliced branches)
@@ -326,7 +369,23 @@ fn elem_desc(e: Option<&El>) -> String {
 /// Lock-step execution of the library interpreter and the model; shared with C16 and the fuzz target.
 /// Returns labels through `o`.
 pub fn lockstep(program: &[El], via_bits: bool, o: &mut Outcome) -> Result<(), Failure> {
-    let script = if via_bits {
+    // three routes to the Script object: its bytes; the nested elements; and, for every other element-built case, the
+    // written-out elements (OP_IF / OP_ELSE / OP_ENDIF as plain opcodes, the way Script::push would assemble them)
+    let flat = via_bits && program.len() % 2 == 1 && gs::has_if(program) && !im::unbalanced(program);
+    let script = if flat {
+        o.label("written-out-conditionals-through-push");
+        let mut s = Script::default();
+        for t in gs::to_tokens(program) {
+            s.push(match t {
+                tok::Tok::Op(b) => bsv::ScriptBit::OpCode(opcode_from_byte(b).expect("table opcode")),
+                tok::Tok::Push { opcode, data } => match opcode {
+                    76..=78 => bsv::ScriptBit::PushData(opcode_from_byte(opcode).expect("push opcode"), data),
+                    _ => bsv::ScriptBit::Push(data),
+                },
+            });
+        }
+        s
+    } else if via_bits {
         script_from_els(program)
     } else {
         let b = gs::to_bytes(program);
@@ -449,7 +508,7 @@ impl Property for C14 {
 
     fn assumptions() -> Vec<String> {
         vec![
-            "post-Genesis consensus semantics (no MINIMALDATA / MINIMALIF, unbounded script numbers); OP_2MUL/OP_2DIV, CLTV/CSV, reserved codes, VERIF/VERNOTIF, the CHECKSIG family and index-like operands longer than 4 bytes are not asserted: comparison stops at the first such element".into(),
+            "post-Genesis consensus semantics (no MINIMALDATA / MINIMALIF, unbounded script numbers); OP_2MUL/OP_2DIV, CLTV/CSV, reserved codes, VERIF/VERNOTIF, and the CHECKSIG family are not asserted: comparison stops at the first such element".into(),
             "comparison stops (without alarm) when an item exceeds 1 MiB".into(),
         ]
     }
@@ -462,8 +521,9 @@ impl Property for C14 {
         vec![
             "every modelled opcode x every stack of depth 0..=arity+1 over the 18-value alphabet (4 values when arity >= 4)".into(),
             "nullary/unary opcodes x 0..=2 alt-stack items".into(),
-            "IF/NOTIF x 6 branch shapes x 18 condition values x {0,1} items below".into(),
+            "IF/NOTIF x 11 branch shapes (incl. a second OP_ELSE at this level or inside a nested conditional of the taken / the skipped branch, a stray OP_ELSE before and a stray OP_ENDIF after the conditional) x 18 condition values x {0,1} items below".into(),
             "every unary numeric opcode on +/-(2^e + d), e in {0,7,8,15,16,23,24,31,32,39,63,64,127}, d in -2..=2, minimal and padded; every binary numeric opcode on pairs over e in {7,8,15,16,23,24,31,32,63,64}, d in -1..=1".into(),
+            "PICK / ROLL / SPLIT / NUM2BIN / LSHIFT / RSHIFT x stacks of 1..4 items x 30 operand values from -2^64 to 2^100 x 0, 1, 2, 4 and 9 bytes of padding (operands of up to 22 bytes)".into(),
             "OP_SIZE / OP_DEPTH / byte-string opcodes on items of 127..65536 bytes (OP_SIZE also 8 MiB -/+ 1) and above 126..257 items".into(),
         ]
     }
@@ -536,6 +596,20 @@ impl Property for C14 {
                 _ => {}
             }
         }
+        // index / position / size / count operands of every width, minimal and padded
+        let index_values: Vec<i128> = vec![0, 1, 2, 3, 4, 7, 8, 9, 16, 17, 127, 128, 255, 256, 32767, 32768, (1 << 31) - 1, 1 << 31, (1 << 32) - 1, 1 << 32, (1i128 << 63) - 1, 1i128 << 63, 1i128 << 64, 1i128 << 100, -1, -2, -128, -(1 << 31), -(1i128 << 32), -(1i128 << 64)];
+        for op in [121u8, 122, 127, 128, 152, 153] {
+            for stack in [vec![16u8], vec![17, 16], vec![3, 17, 16], vec![5, 3, 17, 16]] {
+                for value in &index_values {
+                    for extra in [0u8, 1, 2, 4, 9] {
+                        idx += 1;
+                        if idx % nshards == shard && !f(Case::IndexOp { op, stack: stack.clone(), value: *value, extra }) {
+                            return;
+                        }
+                    }
+                }
+            }
+        }
         // OP_SIZE / OP_DEPTH and the byte-string opcodes on items whose length, or above a stack whose depth, needs 2..4 bytes
         for (op, arity) in sized_ops() {
             for l in SIZED_LENS.iter().chain(if op == 130 { [8388607u32, 8388608].iter() } else { [].iter() }) {
@@ -558,7 +632,7 @@ impl Property for C14 {
             }
         }
         for code in [99u8, 100] {
-            for shape in 0..6u8 {
+            for shape in 0..11u8 {
                 for cond in 0..ALPHABET.len() as u8 {
                     for below in [vec![], vec![5u8]] {
                         idx += 1;
@@ -590,6 +664,7 @@ impl Property for C14 {
                 let (op, arity) = nops[gen::pick(o, nops.len())];
                 Case::Boundary { op, args: nums[..arity.min(3)].to_vec(), padded }
             }),
+            2 => (prop::sample::select(vec![121u8, 122, 127, 128, 152, 153]), prop::collection::vec(0u8..18, 1..6), prop_oneof![(-3i128..40), any::<i64>().prop_map(|v| v as i128), any::<i128>().prop_map(|v| v >> 20)], prop_oneof![3 => Just(0u8), 2 => 1u8..12]).prop_map(|(op, stack, value, extra)| Case::IndexOp { op, stack, value, extra }),
             1 => (any::<u16>(), prop::collection::vec(prop_oneof![prop::sample::select(SIZED_LENS.to_vec()), 0u32..70000], 2), prop_oneof![3 => Just(0u16), 1 => 120u16..300], any::<u8>()).prop_map(move |(o, lens, pad, seed)| {
                 let (op, arity) = sops[gen::pick(o, sops.len())];
                 Case::Sized { op, lens: lens[..arity.clamp(1, 2)].to_vec(), pad, seed }
@@ -604,6 +679,7 @@ impl Property for C14 {
         let via_bits = match case {
             Case::Program { via_bits, .. } | Case::Explicit { via_bits, .. } => *via_bits,
             Case::Boundary { padded, .. } => *padded,
+            Case::IndexOp { extra, .. } => extra % 2 == 1,
             Case::Sized { pad, .. } => pad % 2 == 1,
             Case::Single { stack, .. } => stack.len() % 2 == 1,
             Case::Cond { cond, .. } => cond % 2 == 1,
@@ -615,6 +691,10 @@ impl Property for C14 {
             Case::Program { .. } => o.label("random-program"),
             Case::Explicit { .. } => o.label("explicit"),
             Case::Boundary { .. } => o.label("boundary-numbers"),
+            Case::IndexOp { value, extra, .. } => {
+                o.label("index-operand");
+                o.label_if(im::enc(&BigInt::from(*value)).len() + *extra as usize > 4, "index-operand-longer-than-4-bytes");
+            }
             Case::Sized { lens, pad, .. } => {
                 o.label("sized-items");
                 o.label_if(lens.iter().any(|l| *l >= 32768), "item>=32768-bytes");
